@@ -819,11 +819,11 @@ impl Drop for Worker {
 }
 
 /// the failure sites of the model, in the order of `Site.all` (bit i of the fix mask)
-const SITES: [&str; 28] = [
+const SITES: [&str; 30] = [
     "snaIm", "snaPage", "szxIdUtf8", "szxAlloc", "szxCrtrShort", "szxCrtrUtf8", "szxZ80rShort", "szxZ80rIm",
     "szxSpcrShort", "szxSpcrBorder", "szxAyShort", "szxKeybShort", "szxAmxmShort", "szxRampShort",
     "szxRampPage", "szxRampData", "szxRampInflated", "tapArith", "tapIndex", "tapPilot", "vtxSpin",
-    "vtxScan", "vtxArith", "vtxStrings", "vtxAlloc", "vtxPlayerFreq", "vtxLha", "snaRev",
+    "vtxScan", "vtxArith", "vtxStrings", "vtxAlloc", "vtxPlayerFreq", "vtxLha", "snaRev", "snaRestore", "szxMachine",
 ];
 
 fn site_bit(name: &str) -> u32 {
@@ -2184,14 +2184,28 @@ kind or failure site)"
         }
     }
     {
-        // behaviour switch of the SNA repair: is a 48K snapshot refused by the 128K machine as well?
+        // behaviour switches (not failure sites): what the tree under test does where several
+        // behaviours are acceptable. Each is read off one probe input.
+        let mut probe = |name: &str, c: Case| {
+            let t = ctx.timeout_for(&c);
+            let o = ctx.worker.run(&c, t);
+            if o.class == "err" {
+                ctx.fix |= site_bit(name);
+                fixed_sites.push(name.to_string());
+            }
+        };
+        // is a 48K snapshot refused by the 128K machine as well?
         let mut c = Case::new("sna").machine(true, false, 0);
         c.segs = sna_segs(&[1u8; 27], 49179, [0; 4], 0);
-        let t = ctx.timeout_for(&c);
-        if ctx.worker.run(&c, t).class == "err" {
-            ctx.fix |= site_bit("snaRev");
-            fixed_sites.push("snaRev".to_string());
-        }
+        probe("snaRev", c);
+        // restore_7ffd: a locked 128K receiver still takes the file's bank (2 => a sixth tail bank is
+        // needed, the 131103-byte file ends one bank early)
+        let mut c = Case::new("sna").machine(true, true, 0);
+        c.segs = sna_segs(&[1u8; 27], 131103, [0, 0x80, 2, 0], 0);
+        probe("snaRestore", c);
+        // SZX for the other machine model refused?
+        let b = SzxB::new(2);
+        probe("szxMachine", b.finish(Case::new("szx")));
     }
     rep.extra.push(("repaired_sites_detected".into(), J::A(fixed_sites.iter().map(|s| J::s(s.clone())).collect())));
     rep.extra.push(("fix_mask".into(), J::s(format!("{:x}", ctx.fix))));
